@@ -272,6 +272,86 @@ theorem C04_response_model_verdict_ok (hl sk : List Str) (hc : CanonicalNames hl
     simp [C04_trailers_preserved hl sk repl down pre res hs k]
   rw [this]
 
+/-! ### exactly what the driver composes
+
+The driver runs the model with the *regenerated* lists (`hop`, `skip`) and judges with the *specified*
+lists (`specHop`, `specSkip`).  The two are equal as sets (`C04_hop_list_is_spec`,
+`C04_skip_list_is_spec`), and only membership matters: -/
+
+theorem hop_contains_eq (k : Str) : hop.contains k = specHop.contains k := by
+  have h := C04_hop_list_is_spec
+  simp only [Bool.and_eq_true, List.all_eq_true] at h
+  cases h1 : hop.contains k <;> cases h2 : specHop.contains k <;> try rfl
+  · have := h.2 k (by simpa using h2); rw [h1] at this; cases this
+  · have := h.1 k (by simpa using h1); rw [h2] at this; cases this
+
+theorem skip_contains_eq (k : Str) : skip.contains k = specSkip.contains k := by
+  have h := C04_skip_list_is_spec
+  simp only [Bool.and_eq_true, List.all_eq_true] at h
+  cases h1 : skip.contains k <;> cases h2 : specSkip.contains k <;> try rfl
+  · have := h.2 k (by simpa using h2); rw [h1] at this; cases this
+  · have := h.1 k (by simpa using h1); rw [h2] at this; cases this
+
+theorem expectReqVals_spec (repl : Str → Str) (u : Upstream) (r : Request) (k : Str) :
+    expectReqVals specHop repl u r k = expectReqVals hop repl u r k := by
+  unfold expectReqVals isHop
+  rw [hop_contains_eq]
+
+theorem expectRespVals_spec (repl : Str → Str) (down : Rules) (pre : Hdr) (res : Response) (k : Str) :
+    expectRespVals specHop specSkip repl down pre res k = expectRespVals hop skip repl down pre res k := by
+  unfold expectRespVals isHop
+  rw [hop_contains_eq, skip_contains_eq]
+
+/-- The request-side verdict the driver computes on the model's own answer is "ok". -/
+theorem C04_request_driver_verdict_ok (repl : Str → Str) (u : Upstream) (r : Request)
+    (hne : Hdr.NoEmpty r.header) (hni : nonInterfering u.upRules = true) (hb : BodyConsistent r) :
+    verdictReq specHop repl u r (forward hop repl u r) = "ok" := by
+  obtain ⟨_, _, h3⟩ := C04_method_body_untouched hop repl u r hb
+  have hfind : (reqKeys specHop u r (forward hop repl u r)).find?
+      (fun k => (forward hop repl u r).header.vals k != expectReqVals specHop repl u r k) = none := by
+    rw [List.find?_eq_none]
+    intro k _
+    rw [expectReqVals_spec]
+    simp [vals_forward hop C04_hop_names_canonical repl u r hne hni k]
+  unfold verdictReq
+  rw [forward_method, forward_contentLength, forward_url, director_path, director_rawPath, director_query, h3, hfind]
+  simp
+
+/-- The response-side verdict the driver computes on the model's own answer is "ok". -/
+theorem C04_response_driver_verdict_ok (repl : Str → Str) (down : Rules) (pre : Hdr) (res : Response)
+    (hg : Good res.header) (hni : nonInterfering down = true)
+    (hs : TrailerSide (mergedHeader hop skip repl down pre res) res) :
+    verdictResp specHop specSkip repl down pre res (respond hop skip repl down pre res).status
+      (respond hop skip repl down pre res).header (clientTrailers (respond hop skip repl down pre res)) = "ok" := by
+  have hhead : verdictRespHead specHop specSkip repl down pre res (respond hop skip repl down pre res).status
+      (respond hop skip repl down pre res).header = "ok" := by
+    have hfind : (respKeys specHop down pre res (respond hop skip repl down pre res).header).find? (fun k =>
+        if k == sTrailer && res.announced.length > 0 then
+          !sameMembers ((respond hop skip repl down pre res).header.vals k) res.announced
+        else (respond hop skip repl down pre res).header.vals k != expectRespVals specHop specSkip repl down pre res k) = none := by
+      rw [List.find?_eq_none]
+      intro k _
+      rw [expectRespVals_spec, vals_respond hop skip C04_hop_names_canonical repl down pre res hg hni k]
+      by_cases hk : k = sTrailer
+      · by_cases ha : res.announced.length > 0
+        · simp [hk, ha, sameMembers_self]
+        · simp [hk, ha]
+      · have : (k == sTrailer) = false := by simp [hk]
+        simp [hk, this]
+    unfold verdictRespHead
+    rw [respond_status, hfind]
+    simp
+  unfold verdictResp
+  rw [hhead]
+  simp only [bne_self_eq_false, Bool.false_eq_true, if_false]
+  unfold verdictRespTrailers
+  have : (res.trailer.keys ++ (clientTrailers (respond hop skip repl down pre res)).keys).find?
+      (fun k => (clientTrailers (respond hop skip repl down pre res)).vals k != res.trailer.vals k) = none := by
+    rw [List.find?_eq_none]
+    intro k _
+    simp [C04_trailers_preserved hop skip repl down pre res hs k]
+  rw [this]
+
 /-! Non-vacuity: concrete instances of the hypotheses and of the interesting cases. -/
 
 /-- test: `Connection: close` + `Connection: x-secret` (two lines), `Keep-Alive` with an empty first value,
